@@ -18,11 +18,7 @@ from ..gen import sheets as G
 from ..gen import sugar as S
 
 MANIFEST = dict(
-<<<<<<< HEAD
-    text="Proof: (1) Lean theorem sugar_equiv_of_cert (validated bisimulation certificate ⇒ equal traces for every contact input sequence, full observation level) applied by the driver to the REAL compiler's output for each sugared sheet and for its desugared twin; (2) Lean model of the parser's block structure (Rpft/Sugar.lean) with events_desugar: for every sheet tree and context the parser performs the same row events on a sheet and on its desugared form (loops unrolled in order with loop/index variables bound, false include_if rows and blocks dropped without being evaluated, loop variables gone after end_for, nesting composes); (3) the block clause on the Lean compiler model for all machine states: block_edge_group (an edge naming a block changes nothing but node contents and connects exactly the nodes the NodeGroup recursion reaches), block_edge_frame / block_edge_connects_reach (connected and hard exits keep their destination, loose exits of reached nodes lead to the edge's destination), block_edge_inside and the kernel-checked F-C03-a witness block_edge_reaches_outside. Tie: real compiler on generated sugared sheets vs twins (nesting ≤ 3, 0..3 iterations, string/range/native lists, index variables, include_if literals and expressions, excluded blocks with unevaluable content, inserted templates with data rows and arguments).",
-=======
-    text="Proof: (1) Lean theorem sugar_equiv_of_cert (validated bisimulation certificate ⇒ equal traces for every contact input sequence, full observation level) applied by the driver to the REAL compiler's output for each sugared sheet and for its desugared twin; (2) Lean model of the parser's block structure (Rpft/Sugar.lean) with events_desugar: for every sheet tree and context the parser performs the same row events on a sheet and on its desugared form (loops unrolled in order with loop/index variables bound, false include_if rows and blocks dropped without being evaluated, loop variables gone after end_for, nesting composes). Tie: real compiler on generated sugared sheets vs twins (nesting ≤ 3, 0..3 iterations, string/range/native lists, index variables, include_if literals and expressions, excluded blocks with unevaluable content, inserted templates with data rows and arguments). (3) Flat sheets (Rpft/SugarFlat.lean, Props/C03_Flat.lean): the real parser works on the flat row list with an iterator, bookmarks by depth and a mutable context; that machine is modelled line by line (runFlat) and proved equal, for EVERY flat sheet, context and interface satisfying FlatLaws (row kinds not templated, loop and index variable distinct, the context is a dictionary), to the tree reading of the sheet's scan tree (flat_eq_scan_tree: same events, same order, same first error also on ill-nested sheets, final context = initial context, the model's fuel never runs out), hence to Sugar.evItems of the parsed tree on well-nested quiet sheets (flat_eq_tree) and to events_desugar on flat sheets (flat_events_desugar); parseTree (the Lean tree_of_rows) and flatten are inverse (parse_flatten, flatten_parse) and parseTree agrees with the C15 block machine (parse_fault_is_cli_fault). Tie: runFlat vs the traced real _parse_block (consumer stubbed, first CRITICAL stops as in the CLI) on well-nested and ill-nested sheets (unterminated, mismatched, stray end rows, begin rows in excluded blocks, loops as last rows, empty sheets, uninstantiable rows, unknown types, initial contexts that loops shadow), parseTree vs tree_of_rows, and the replay of the sheets where the real parser and the tree reading differ (needs_… witnesses).",
->>>>>>> b-flat
+    text="Proof: (1) Lean theorem sugar_equiv_of_cert (validated bisimulation certificate ⇒ equal traces for every contact input sequence, full observation level) applied by the driver to the REAL compiler's output for each sugared sheet and for its desugared twin; (2) Lean model of the parser's block structure (Rpft/Sugar.lean) with events_desugar: for every sheet tree and context the parser performs the same row events on a sheet and on its desugared form (loops unrolled in order with loop/index variables bound, false include_if rows and blocks dropped without being evaluated, loop variables gone after end_for, nesting composes); (3) the block clause on the Lean compiler model for all machine states: block_edge_group (an edge naming a block changes nothing but node contents and connects exactly the nodes the NodeGroup recursion reaches), block_edge_frame / block_edge_connects_reach (connected and hard exits keep their destination, loose exits of reached nodes lead to the edge's destination), block_edge_inside and the kernel-checked F-C03-a witness block_edge_reaches_outside. (4) Flat sheets (Rpft/SugarFlat.lean, Props/C03_Flat.lean): the real parser works on the flat row list with an iterator, bookmarks by depth and a mutable context; that machine is modelled line by line (runFlat) and proved equal, for EVERY flat sheet, context and interface satisfying FlatLaws (row kinds not templated, loop and index variable distinct, the context is a dictionary), to the tree reading of the sheet's scan tree (flat_eq_scan_tree: same events, same order, same first error also on ill-nested sheets, final context = initial context, the model's fuel never runs out), hence to Sugar.evItems of the parsed tree on well-nested quiet sheets (flat_eq_tree) and to events_desugar on flat sheets (flat_events_desugar); parseTree (the Lean tree_of_rows) and flatten are inverse (parse_flatten, flatten_parse) and parseTree agrees with the C15 block machine (parse_fault_is_cli_fault). Tie: real compiler on generated sugared sheets vs twins (nesting ≤ 3, 0..3 iterations, string/range/native lists, index variables, include_if literals and expressions, excluded blocks with unevaluable content, inserted templates with data rows and arguments).",
     ref="§5 C03",
     note="Trusts: Lean kernel; certificate search untrusted; the harness desugarer uses the repo's own template engine to substitute loop variables (the meaning of {{v}} is not C03's subject); NodeGroup exit semantics: proved on the Lean compiler model (tied to the real parser by the exact comparison of C01) and exercised on the real code by the with/without-edge oracle. Known findings: F-C03-a (edge naming a block also connects exits of rows leading into it).",
     technique="Lean 4 proof (certificate soundness; structural induction on the block tree) + metamorphic sugared-vs-desugared check on the real compiler",
